@@ -60,6 +60,30 @@ Fixpoint tr_read (n : N) (s : stream) : bytes * option N * stream :=
       end
   end.
 
+(* The same segments read as TRANSIENT faults: the error of a Fault / Last segment is reported by
+   one Read call only, the stream then goes on with the segments that follow.  (What the stdlib does
+   with that is its documented behaviour: io.ReadFull / io.CopyN drop an error that arrives together
+   with the last bytes they asked for; bufio.Reader keeps it for its next call.)  The lemmas of
+   Proofs/FaultsIO.v are about [tr_read]; a transient transport is not a sound reader in their
+   sense once its fault is past, and is used for the correspondence run only. *)
+Fixpoint tr_read_t (n : N) (s : stream) : bytes * option N * stream :=
+  match s with
+  | [] => ([], Some id_EOF, [])
+  | Fault e :: r => ([], Some e, r)
+  | Data [] :: r => tr_read_t n r
+  | Data b :: r =>
+      match split_at n b with
+      | (a, []) => (a, None, r)
+      | (a, b') => (a, None, Data b' :: r)
+      end
+  | Last [] e :: r => ([], Some e, r)
+  | Last b e :: r =>
+      match split_at n b with
+      | (a, []) => (a, Some e, r)
+      | (a, b') => (a, None, Last b' e :: r)
+      end
+  end.
+
 (* model-only error code: a loop ran out of fuel (a reader that returns (0, nil) for ever) *)
 Definition id_NoProgress : N := 99%N.
 
@@ -162,17 +186,21 @@ Definition copy_n_flat (n : N) (f : bytes * N) : res (bytes * (bytes * N)) :=
 (* ================================ writing ================================ *)
 (* A transport writer that fails at Write call number [failat]: that call accepts
    min(m, len p) bytes (at most len p - 1 when it reports no error: a short write) and reports
-   [term]; the transport stays broken.  The peer receives exactly the accepted bytes. *)
+   [term]; a sticky transport stays broken, a transient one accepts the following calls again.
+   The shape of the failure is (m, term): (0, e), (0 < m < len p, e), (len p, e), or a short write
+   without error (m < len p, nil).  The peer receives exactly the accepted bytes. *)
 Record wtr : Type := mk_wtr {
   wt_peer : list bytes;        (* accepted writes, most recent first *)
   wt_calls : N;
   wt_failat : option N;
   wt_m : N;
   wt_term : option N;          (* None: the faulty call returns (m < len p, nil) *)
-  wt_failed : bool }.
+  wt_failed : bool;            (* the fault has happened and the transport refuses further writes *)
+  wt_sticky : bool }.          (* false: a transient fault -- the Write calls after it succeed *)
 
-Definition wtr_new (failat : option N) (m : N) (term : option N) : wtr :=
-  mk_wtr [] 0 failat m term false.
+Definition wtr_new_s (sticky : bool) (failat : option N) (m : N) (term : option N) : wtr :=
+  mk_wtr [] 0 failat m term false sticky.
+Definition wtr_new := wtr_new_s true.
 Definition wt_received (w : wtr) : bytes := concat (frev (wt_peer w)).
 Definition wt_err (w : wtr) : N := match wt_term w with Some e => e | None => id_ShortWrite end.
 
@@ -190,10 +218,10 @@ Definition wt_write (p : bytes) (w : wtr) : N * option N * wtr :=
                 end in
       let (a, _) := split_at mm p in
       (mm, wt_term w,
-       mk_wtr (a :: wt_peer w) (N.succ (wt_calls w)) (wt_failat w) (wt_m w) (wt_term w) true)
+       mk_wtr (a :: wt_peer w) (N.succ (wt_calls w)) (wt_failat w) (wt_m w) (wt_term w) (wt_sticky w) (wt_sticky w))
     else
       (lenN p, None,
-       mk_wtr (p :: wt_peer w) (N.succ (wt_calls w)) (wt_failat w) (wt_m w) (wt_term w) false).
+       mk_wtr (p :: wt_peer w) (N.succ (wt_calls w)) (wt_failat w) (wt_m w) (wt_term w) false (wt_sticky w)).
 
 (* io.Copy(w, bytes.NewReader(p)) = bytes.Reader.WriteTo: nothing to write -> no call;
    else one Write; m != len(p) && err == nil -> io.ErrShortWrite *)
